@@ -25,6 +25,8 @@ Theorem C15_partial :
 Proof. exact (fun st cs rows k => run_exact gen_cfg st cs rows k gen_cfg_ok). Qed.
 Print Assumptions C15_partial.
 
+Definition ex_st_pre : tstate := mkT "t1" "t39666281" "rf7f32a1c".
+
 (** histories: lazy expressions built and executed in any order, any number of times; building never
     changes the table nor reaches the connection *)
 Theorem C15_histories :
@@ -49,6 +51,11 @@ Theorem C15_no_cte_qualifier_left :
 Proof. exact (fun st k s => no_cte_qualifier_left gen_cfg st k s gen_cfg_ok). Qed.
 Print Assumptions C15_no_cte_qualifier_left.
 
+Example C15_no_cte_hypotheses_satisfiable :
+  cte ex_st_pre <> phys ex_st_pre /\ exists s, compile gen_cfg ex_st_pre
+    (CDelete (WCols [QBin Eq (QCol (Some "rf7f32a1c") "a") (QCol (Some "t39666281") "b")])) = inr s.
+Proof. split; [discriminate|]. eexists. vm_compute. reflexivity. Qed.
+
 (** with the three patches proposed in the findings, the proved domain is the whole property *)
 Theorem C15_full_if_patched :
   where_str_is_sql gen_cfg = true -> set_unqualified_raises gen_cfg = false -> set_strips_alias gen_cfg = true ->
@@ -61,7 +68,7 @@ Print Assumptions C15_full_if_patched.
 
 (** the domain is inhabited by non-trivial calls: a swap of two columns guarded by a two-element
     predicate list in both reference styles, and a delete with an aliased CASE predicate *)
-Definition ex_st : tstate := mkT "t1" "t39666281" "rf7f32a1c".
+Definition ex_st : tstate := ex_st_pre.
 Definition ex_cs : list string := ["a"; "b"; "s"].
 Definition ex_rows : list row :=
   [[VInt 1; VInt 2; VStr "x"]; [VNull; VInt 3; VStr "x"]; [VInt 1; VInt 2; VStr "x"]; [VInt 2; VNull; VNull]].
